@@ -77,8 +77,10 @@ func actions() []action {
 		for k, v := range vals[code] {
 			v := v
 			as = append(as, action{
-				name:  fmt.Sprintf("Update(%d,v%d)", code, k),
-				apply: func(p *dhcpv4.DHCPv4) { p.UpdateOption(dhcpv4.OptGeneric(dhcpv4.GenericOptionCode(code), append([]byte(nil), v...))) },
+				name: fmt.Sprintf("Update(%d,v%d)", code, k),
+				apply: func(p *dhcpv4.DHCPv4) {
+					p.UpdateOption(dhcpv4.OptGeneric(dhcpv4.GenericOptionCode(code), append([]byte(nil), v...)))
+				},
 				model: func(m map[uint8][]byte) { m[code] = append([]byte{}, v...) },
 			})
 		}
